@@ -1,3 +1,4 @@
+#![allow(static_mut_refs, unused_imports, dead_code, unused_unsafe)]
 // Kani harnesses for src/sqpack/index.rs
 use super::*;
 use crate::verif_support::refs::{ascii_lower, ascii_lower_model, naive_memrchr, ref_crc_update};
